@@ -1688,7 +1688,7 @@ class Interp:
             key_unknown = fn.name in ('insert', 'setdefault') and args and isinstance(args[0], Opaque)
             if any(isinstance(a, Opaque) for a in args) and not (storing and not key_unknown):
                 return Opaque(f'{fn.name}(⊤)')
-            if isinstance(fn.obj, str | bytes) and any(isinstance(a, list | tuple) and any(isinstance(x, Opaque | SVar | SObj) for x in a) for a in args):
+            if isinstance(fn.obj, str | bytes) and any(isinstance(a, list | tuple) and any(isinstance(x, Opaque | SVar | SObj) or type(x).__name__ == 'ExactImage' for x in a) for a in args):
                 return Opaque(f'{fn.name}(sequence with ⊤)')  # e.g. ', '.join of formatted abstract values
             if isinstance(fn.obj, dict) and fn.name in ('get', 'pop', 'setdefault', '__getitem__', '__contains__', '__setitem__') and args:
                 args = [self.dict_key(args[0], fn.obj), *args[1:]]
